@@ -106,6 +106,11 @@ bool BufferedFd::enable()
     if (sp_read_event_ != nullptr)
         sp_read_event_->enable();
 
+    //! 在 enable() 之前（或 disable() 期间）send() 的数据还留在发送缓冲中，
+    //! 需要打开可写事件把它们发出去，否则后续 send() 只会继续往缓冲里追加，数据永远发不出去
+    if (sp_write_event_ != nullptr && send_buff_.readableSize() > 0)
+        sp_write_event_->enable();
+
     state_ = State::kRunning;
 
     return true;
